@@ -561,6 +561,8 @@ LEAVES_BRANCHES = (
     ['leaves/box/' + b for b in ('inside', 'outside', 'on-boundary', 'scalar-bounds',
                                  'element-bounds', 'one-sided', 'no-bounds', 'nonnegativity',
                                  'inverted-bounds', 'no-gradient', 'pspace')] +
+    ['leaves/l2/' + b for b in ('nonzero', 'zero', 'rational-norm', 'power-of-two-norm',
+                                'irrational-norm', 'fd-ok', 'pspace')] +
     ['leaves/sepsum/' + b for b in ('value', 'gradient', 'derivative', 'power-space',
                                     'mixed-weights', 'fd-ok')])
 
@@ -814,6 +816,54 @@ def sep_case(ctx, S, parts, xs, ds, stream, via_ops, lines, pend, power=None):
     pend.append(('sep', desc, (v, gl, dd), S, classes, stream))
 
 
+def l2_case(ctx, S, xs, ds, lines, pend):
+    """L2Norm value / gradient (x / ||x||, zero vector at 0)."""
+    import odl.solvers as sol
+    desc = {'leaves': 'l2', 'space': S.name, 'x': xs, 'd': ds}
+    key = 'leaves l2 space={}({})'.format(S.name, S.kind)
+    st, f = safe_call(sol.L2Norm, S.space)
+    if st != 'ok':
+        ctx.violation('construct ' + key, 'constructing raised ' + st, desc)
+        return
+    x, d = S.elem(xs), S.elem(ds)
+    st, res = safe_call(lambda: (float(f(x)), S.flat(f.gradient(x))))
+    if st != 'ok':
+        ctx.violation('value-raises:{} {}'.format(st.split(':')[1], key),
+                      'f(x) / f.gradient(x) raised ' + st, desc)
+        return
+    v, gl = res
+    q = S.inner(xs, xs)                       # exact rational ||x||^2
+    # oracle: documented value sqrt(<x,x>), gradient of unit norm resp. zero at 0, finite differences
+    if not close(v, math.sqrt(q), 1.0, 1e-12, 1e-12):
+        ctx.violation('value ' + key, 'f(x) = {!r} but sqrt(<x,x>) = {!r}'.format(v, math.sqrt(q)), desc)
+    if q == 0:
+        ctx.hit('leaves/l2/zero')
+        if any(t != 0 for t in gl):
+            ctx.violation('gradient ' + key, 'gradient(0) = {!r}, documented: 0'.format(gl[:6]), desc)
+    else:
+        ctx.hit('leaves/l2/nonzero')
+        gn = math.sqrt(float(S.inner(gl, gl)))
+        if not close(gn, 1.0, 1.0, 1e-12, 1e-12):
+            ctx.violation('gradient ' + key, '||gradient(x)|| = {!r}, expected 1'.format(gn), desc)
+        gd = float(f.gradient(x).inner(d))
+        st, dd = safe_call(lambda: float(f.derivative(x)(d)))
+        if st != 'ok' or not close(dd, gd, 1.0, 1e-12, 1e-12):
+            ctx.violation('derivative ' + key, 'derivative(x)(d) = {!r} but <gradient(x), d> = '
+                          '{!r}'.format(dd if st == 'ok' else st, gd), desc)
+        fst, D = fd_oracle(f, S, xs, ds)
+        if fst == 'ok':
+            ctx.hit('leaves/l2/fd-ok')
+            if abs(D - gd) > 2e-6 * max(1.0, abs(D), abs(gd)):
+                ctx.violation('gradient ' + key, '<gradient(x), d> = {!r} but central differences '
+                              'of the values give {!r}'.format(gd, D), desc)
+    if S.is_pspace:
+        ctx.hit('leaves/l2/pspace')
+    pow2 = q > 0 and Fraction(v) ** 2 == q and math.frexp(v)[0] == 0.5
+    ctx.case(('leaf', 'l2', S.kind, q == 0, pow2) if q != 0 else None)
+    lines.append('l2 w={} x={}'.format(fc.wl(S), fl(xs)))
+    pend.append(('l2', desc, (v, gl, pow2), S, ('l2',), 'exact'))
+
+
 def leaves_stream(ctx, lines, pend, quick):
     rng = ctx.rng
     for S in fc.all_spaces():
@@ -838,6 +888,19 @@ def leaves_stream(ctx, lines, pend, quick):
                         xs[rng.randrange(n)] = KL_X_SING[kind]
                     ds = fc.rvec(rng, n, -4, 4, 2)
                     kl_case(ctx, kind, S, prior, xs, ds, 'exact' if exact else 'general', lines, pend)
+        # ---- L2Norm: zero, norms that are powers of two (exact division), rational, irrational
+        l2_case(ctx, S, [0.0] * n, fc.rvec(rng, n, -4, 4, 2), lines, pend)
+        for rep in range(10 if quick else 60):
+            m = rng.random()
+            if m < 0.4:     # +-c on every entry: ||x||^2 = c^2 * sum(w)
+                c = rng.choice([0.25, 0.5, 1.0, 2.0, 4.0])
+                xs = [c * rng.choice([1.0, -1.0]) for _ in range(n)]
+            elif m < 0.6:   # a single non-zero entry
+                xs = [0.0] * n
+                xs[rng.randrange(n)] = rng.choice([0.5, -2.0, 3.0, 1.25])
+            else:
+                xs = fc.rvec(rng, n, -8, 8, 4)
+            l2_case(ctx, S, xs, fc.rvec(rng, n, -4, 4, 2), lines, pend)
         # ---- IndicatorBox / IndicatorNonnegativity
         for rep in range(8 if quick else 40):
             shape = rng.choice(['scalar', 'scalar', 'elem', 'elem', 'mixed', 'lo-only', 'hi-only',
@@ -928,6 +991,29 @@ def compare_leaves(ctx, op, d2, impl, ans, stream):
         if not ok:
             ctx.disagree(d2, impl[:8], ans[:300])
         return True
+    if op == 'l2':
+        v, gl, pow2 = impl
+        kv = dict(t.split('=', 1) for t in ans.split()[1:]) if ans.startswith('ok ') else {}
+        try:
+            mv, mg, ex = core.pfrac(kv['v']), core.pfl(kv['g']), kv['exact'] == '1'
+            ctx.hit('leaves/l2/' + ('power-of-two-norm' if pow2 else 'rational-norm' if ex
+                                    else 'irrational-norm') if mv != 0 else 'leaves/l2/zero')
+            if len(mg) != len(gl) or (pow2 and not ex):
+                ok = False
+            elif mv == 0:              # the zero vector, exactly
+                ok = v == 0 and all(a == 0 for a in gl) and all(b == 0 for b in mg)
+            else:
+                # value np.sqrt(x.inner(x)): exact when the root is rational (sqrt is correctly
+                # rounded), else one rounding. Gradient x / x.norm(): x.norm() is NOT computed as
+                # sqrt(inner) on weighted spaces (sqrt(c) * ||x||_2 for a constant weighting), so
+                # it carries a few ulp even for a power-of-two norm: 1e-14 relative.
+                ok = (Fraction(v) == mv if ex else close(v, float(mv), 1.0, 1e-14, 0)) and \
+                    all(close(a, float(b), 1.0, 1e-14, 1e-16) for a, b in zip(gl, mg))
+        except (ValueError, KeyError, OverflowError):
+            ok = False
+        if not ok:
+            ctx.disagree(d2, [v, gl[:8]], ans[:300])
+        return True
     if op == 'sep':
         v, gl, dd = impl
         kv = dict(t.split('=', 1) for t in ans.split()[1:]) if ans.startswith('ok ') else {}
@@ -968,6 +1054,8 @@ def leaves_replay(ctx, case):
     S = fc.get_space(case['space'])
     if case['leaves'] == 'kl':
         kl_case(c, case['kind'], S, case['prior'], case['x'], case['d'], case['stream'], [], [])
+    elif case['leaves'] == 'l2':
+        l2_case(c, S, case['x'], case['d'], [], [])
     elif case['leaves'] == 'box':
         box_case(c, S, case['lo'], case['hi'], case['x'], [], [], nonneg=case.get('nonneg', False))
     elif case['leaves'] == 'sepsum':
